@@ -574,3 +574,18 @@ package types
 //@   ensures untouched: result != nil ==> (len(vals.Validators) == old(len(vals.Validators)) && vals.Proposer == old(vals.Proposer) &&
 //@     | forall(i, 0, len(vals.Validators), vals.Validators[i] == old(vals.Validators[i]) && vals.Validators[i].Address == old(vals.Validators[i].Address) && vals.Validators[i].VotingPower == old(vals.Validators[i].VotingPower) && vals.Validators[i].ProposerPriority == old(vals.Validators[i].ProposerPriority)))
 //@   atcall sort.Sort total: vals.totalVotingPower == totalPower(vals, len(vals.Validators)) && 0 <= vals.totalVotingPower && vals.totalVotingPower <= MaxTotalVotingPower
+
+// ---- C02: used by the consensus step contracts ----
+// Whether a block hashes to a given value is a function of the block object and the value (through Block.Hash, which
+// is assumed to be one), and nothing hashes to the empty value; a nil block hashes to nothing.
+//@ func Block.HashesTo
+//@   purefn
+//@   assigns nothing
+//@   ensures exact: result <==> (b != nil && len(hash) != 0 && Block.Hash(b) == hash)
+// ASSUMED: the two-thirds majority of a vote set is a function of the vote-set object while one step function of the
+// consensus state machine runs (maj23 is set once and never changed; votes are added only between step functions or
+// before the first query of the set within addVote).
+//@ func VoteSet.TwoThirdsMajority
+//@   trusted
+//@   purefn
+//@   assigns nothing
